@@ -16,15 +16,16 @@ from props import e2e
 
 ID = 'C03'
 HARNESS = 'solve'
-COQ_IMPORTS = 'From VRP Require Model.Routing. From VRP Require Import Base.Tac Model.Core Spec.Valid Spec.ValidTD Spec.ValidX Model.Writer.'
-MODEL_TARGETS = ['theories/Spec/Valid.vo', 'theories/Spec/ValidTD.vo', 'theories/Spec/ValidX.vo', 'theories/Model/Writer.vo']
+COQ_IMPORTS = 'From VRP Require Model.Routing. From VRP Require Import Base.Tac Model.Core Spec.Valid Spec.ValidTD Spec.ValidX Spec.ValidY Model.Writer.'
+MODEL_TARGETS = ['theories/Spec/Valid.vo', 'theories/Spec/ValidTD.vo', 'theories/Spec/ValidX.vo', 'theories/Spec/ValidY.vo', 'theories/Model/Writer.vo']
 MODEL_NEEDS_IMPL = True
 SHARD = 24
 SIZES = {'quick': 900, 'thorough': 6000, 'search': 1500}
 _R4 = "; round-four features, each in about 1/3 of the problems and from its own forked random stream: 2-4 extra jobs with REPLACEMENT tasks (also mixed with pickups / services / shipments), REQUIRED breaks (exact time or offset interval, 1-2 per shift, on shifts without optional breaks and reloads; documents show them as break activities inside a stop or as stops without location), VICINITY CLUSTERING (plan.clustering with the vehicles' profile, visiting continue / return, serving original with parking 0-10, thresholds taken from the matrix, 3-5 extra single-task jobs at a pair of near locations; not together with breaks, reloads, errorCodes or general routing data)"
+_R5 = '; round-five features, each from its own forked random stream: RECHARGE STATIONS in about 1/3 of the problems without required breaks / clustering (recharges.maxDistance = the length of a random 2-4 leg walk from the shift start, so that tours exactly at the limit occur; 1-3 stations per shift with location, duration 0-15, sometimes a time window / tag; combined with reloads, optional breaks, capacity dimensions, errorCodes, general routing data), SHARED RELOAD RESOURCES in about 2/3 of the problems with reloads (fleet.resources with 1-2 small capacity vectors, resourceId on about 3/4 of the reloads of all shifts)'
 RULE = ('cases: generated pragmatic problems (3-10 jobs incl. multi jobs, 1-2 places with equal or different locations / durations '
         '/ tags, 1-2 windows; 1-3 vehicle types, open and closed ends, start latest, integer fixed/distance/time prices incl. 0; '
-        'metric and non-metric integer matrices with zero-distance location pairs' + _R4 + ') x 3 configurations each. non-trivial = distinct '
+        'metric and non-metric integer matrices with zero-distance location pairs' + _R4 + _R5 + ') x 3 configurations each. non-trivial = distinct '
         '(problem, document) with a tour that has waiting time, a stop with several activities, or two tours.')
 TRUSTED = ['rendering of the JSON documents into the reduced Coq types (tools/props/e2e.py); times are RFC3339 strings on whole '
            'seconds mapped to integer seconds',
@@ -32,7 +33,8 @@ TRUSTED = ['rendering of the JSON documents into the reduced Coq types (tools/pr
            'location, duration, time) and scheduled by the Core model of update_schedules; the real Route is not dumped']
 ASSUMPTIONS = ['integer-valued matrices, durations, times and prices: every f64 operation and `as i64` of the writer is exact, so '
                'equality is exact and the one-unit rounding allowance of the statement is not needed',
-               'fragment without recharges; tours with reloads or optional breaks and problems with general routing data (several '
+               'recharge stops are replayed like job activities (ValidY.replay5: station duration = serving time); tours with recharge stops, '
+               'reloads or optional breaks and problems with general routing data (several '
                'profiles, integer scale, time-dependent matrices with integer slopes) are covered by the independent replay only (the '
                'writer model has none of them)',
                'required breaks (ValidX.replay4): the break intervals a tour reports are inputs of the replay like the visiting order; the '
@@ -46,7 +48,10 @@ ASSUMPTIONS = ['integer-valued matrices, durations, times and prices: every f64 
 
 
 def generate(rng, tier, n):
-    return e2e.gen_cases(rng, n, per_problem=3, allow=e2e.ALLOW_E2E)
+    # plus a small family (own forked stream; the other cases are unchanged): required breaks by EXACT time early in a shift whose
+    # departure the solver moves later (no start.latest, first jobs far / late)
+    return e2e.gen_cases(rng, n, per_problem=3, allow=e2e.ALLOW_E2E) \
+        + e2e.gen_moved_departure_break_cases(rng.fork('moved-departure-break'), max(10, n // 60))
 
 
 def _sol(impl):
@@ -62,8 +67,8 @@ def model_term(c, impl):
     # Spec/ValidTD.v over the C16 provider model (several profiles, scale, time-dependent matrices)
     # problems with round-four features (required breaks ...): ValidX.replay4, the same replay around the reserved times
     return ('(let R := %s in let P := %s in let S := %s in '
-            '(precond_viol P ++ %s, run_writer_enc P S))') % (
-        e2e.g_routing(c, ids), e2e.g_problem(c, ids), e2e.g_solution(c, s, ids), e2e.term_R(c, s, ids))
+            '(precond_viol P ++ %s, run_writer_enc P S, %s))') % (
+        e2e.g_routing(c, ids), e2e.g_problem(c, ids), e2e.g_solution(c, s, ids), e2e.term_R(c, s, ids), e2e.term_span(c, s, ids))
 
 
 # ---- the real document in the encoding of Writer.enc_tour
@@ -101,12 +106,15 @@ def compare(c, impl, model):
         # Model/Writer.v is the writer over ONE time-independent matrix: documents of problems with several profiles / scale /
         # time-dependent matrices are covered by the independent replay (Spec/ValidTD.v) only
         return None
-    _, (tours, total) = model
+    tours, total = model[1]
     ids = e2e.Ids(c)
     if len(tours) != len(s['tours']):
         return 'writer model: %d tours, document: %d' % (len(tours), len(s['tours']))
     skipped = False
     for k, (mt, dt) in enumerate(zip(tours, s['tours'])):
+        if any(a.get('type') == 'recharge' for st in dt['stops'] for a in st['activities']):
+            skipped = True                # recharge stops: ValidY.replay5 only (Model/Writer.v has no recharge activity)
+            continue
         if not mt:
             continue                      # the tour cannot be rebuilt: reported by the oracle (RNoReplay)
         if e2e.tour_has_cluster(dt):
@@ -237,6 +245,13 @@ def _rb_class(c, s, t, cls, what):
     return cls, what
 
 
+def _subset_sums(xs):
+    out = {0}
+    for x in xs:
+        out |= {y + x for y in out}
+    return out - {0}
+
+
 def oracle(c, impl):
     if e2e.outcome(impl) == 'panic':
         msg = str((impl or {}).get('panic'))
@@ -262,6 +277,11 @@ def oracle(c, impl):
             cls = 'schedule-around-required-break-inside-last-activity-of-open-tour-not-reported'     # C03-F8
         elif any(e2e.rb_two_on_one_span(c, t) for t in rbt):
             cls = 'schedule-with-two-required-breaks-inside-one-leg-or-stop'                          # C03-F6
+        elif isinstance(impl['core_cost'], int) and impl['core_cost'] > int(s['statistic']['cost']) and \
+                impl['core_cost'] - int(s['statistic']['cost']) in _subset_sums(e2e.rb_cost_of_breaks_before_departure(c, s)):
+            # NOT a known finding (movable departure + required break, which break.md excludes): Solution.cost still charges a required break that lay inside the tour BEFORE the departure-time
+            # optimisation moved the departure past it; the written tour (rightly) no longer contains it
+            cls = 'core-cost-charges-required-break-that-lies-before-the-advanced-departure'
         elif extra and isinstance(impl['core_cost'], int) and int(s['statistic']['cost']) - impl['core_cost'] == sum(extra) > 0:
             # finding C03-F4: a required break taken while the vehicle waits is charged as waiting AND as break
             cls = 'cost-and-waiting-count-required-break-taken-while-waiting-twice'
@@ -279,6 +299,12 @@ def oracle_model(c, impl, model):
         if t[0] == 'PRouting':
             out.append({'class': 'routing-value-missing-or-not-integer',
                         'what': 'PRouting %s: general routing data outside the exact fragment (generator / provider model)' % list(t[1:])})
+    for k, start in [tuple(x) for x in (model[2] if len(model) > 2 else None) or []]:
+        # ValidY.break_span_viols: a required break the tour reports begins before the tour departs (seeded change C03-6: the writer
+        # measuring the tour from the shift's earliest start instead of the departure)
+        out.append({'class': 'required-break-reported-before-the-tour-departs',
+                    'what': 'tour %d reports a required break that begins at %s, before its departure: the break is not part of the tour '
+                            '(duration and cost are counted from the departure), yet it is reported and counted in times.break' % (k, e2e.rfc(start))})
     for t in e2e.coq_viols(model[0], 'R'):
         name = t[0]
         if name == 'RTag':
